@@ -333,7 +333,11 @@ async fn net_cmd(
                     Ok(r) => r,
                     Err(_) => return format!("abandoned t={}", el()),
                 },
-                None => fut.await,
+                // guard (virtual time): a call that no transport timer ever ends is reported, not waited for
+                None => match tokio::time::timeout(Duration::from_secs(900), fut).await {
+                    Ok(r) => r,
+                    Err(_) => return format!("err stuck-for-900s t={}", el()),
+                },
             };
             match r {
                 Ok(resp) => {
